@@ -16,6 +16,9 @@ SPEC_FILES = ["Spec/Core.lean"]
 ASSUMPTIONS = ["the counter guard used by the model is the Lean term regenerated from the source by harness/extract.py (T2)",
                "histories are modelled as an RP that stores the reported counter after each success"]
 GRID = [0, 1, 2, 2 ** 31 - 1, 2 ** 31, 2 ** 32 - 2, 2 ** 32 - 1]
+# the rule must not depend on anything else the authenticator data says: every legal flag combination
+FLAGSETS = [core.UP, core.UP | core.UV, core.UP | core.BE, core.UP | core.BE | core.BS, core.UP | core.UV | core.BE,
+            core.UP | core.UV | core.BE | core.BS, core.UP | 0x02, core.UP | 0x20, core.UP | core.UV | 0x22]
 
 
 def work(tasks, idx):
@@ -26,16 +29,16 @@ def work(tasks, idx):
     for kind, ci, x in tasks:
         c = cs[ci]
         if kind == "pair":
-            s, cnt = x
-            a, e, _ = faults.build_assertion(c, counter=cnt, stored=s)
+            s, cnt, fl = x
+            a, e, _ = faults.build_assertion(c, counter=cnt, stored=s, flags=fl)
             e["stored_count"] = s
             code = _auth.eval_auth(tie, res, a, e, label=["pair", s, cnt])
             expect = cnt > s or (cnt == 0 and s == 0)
-            res.nontrivial.add(("pair", s, cnt))
+            res.nontrivial.add(("pair", s, cnt, fl))
             res.count("pair:" + ("accept" if expect else "reject"))
             if (code["k"] == "accept") != expect:
                 if code["k"] == "accept":
-                    res.violations.append({"why": f"accepted with counter {cnt} against stored {s}", "case": cases.auth_case(a, e),
+                    res.violations.append({"why": f"accepted with counter {cnt} against stored {s} (flags {fl:#04x})", "case": cases.auth_case(a, e),
                                            "code": code, "match": {"op": "verify_auth", "conjunct": "counter"}})
                 else:
                     res.nonblocking.append({"why": f"rejected counter {cnt} against stored {s}", "code": code})
@@ -45,10 +48,10 @@ def work(tasks, idx):
             if len(res.samples) < 2:
                 res.samples.append({"stored": s, "counter": cnt, "outcome": corr.kind(code)})
         else:  # a presentation history over a pool of pre-signed assertions
-            counters, seq = x
+            counters, seq, fl = x
             pool = []
             for cnt in counters:
-                a, e, _ = faults.build_assertion(c, counter=cnt, stored=0)
+                a, e, _ = faults.build_assertion(c, counter=cnt, stored=0, flags=fl)
                 pool.append((cnt, a, e))
             stored, accepted_nonzero, trail = 0, set(), []
             for i in seq:
@@ -67,7 +70,7 @@ def work(tasks, idx):
                         accepted_nonzero.add(i)
                     stored = new
                 trail.append((cnt, corr.kind(code), stored))
-            res.nontrivial.add(("hist", tuple(counters), tuple(seq)))
+            res.nontrivial.add(("hist", tuple(counters), tuple(seq), fl))
             res.count("history-length:%d" % len(seq))
             if len(res.samples) < 4:
                 res.samples.append({"history": trail})
@@ -82,12 +85,13 @@ def run(ctx, res):
     ncreds = len(_auth.creds())
     for s in GRID:
         for c in GRID:
-            tasks.append(("pair", rng.randrange(ncreds), (s, c)))
+            for fl in FLAGSETS:
+                tasks.append(("pair", rng.randrange(ncreds), (s, c, fl)))
     for _ in range(100 if ctx.quick() else 3000):
         s, c = rng.randrange(2 ** 32), rng.randrange(2 ** 32)
         if rng.random() < 0.3:
             c = max(0, min(2 ** 32 - 1, s + rng.randrange(-2, 3)))
-        tasks.append(("pair", rng.randrange(ncreds), (s, c)))
+        tasks.append(("pair", rng.randrange(ncreds), (s, c, rng.choice(FLAGSETS))))
     # histories: all sequences up to length L over a pool with distinct and repeated counters
     pool_counters = (0, 0, 1, 2, 2, 7) if ctx.quick() else (0, 0, 1, 2, 2, 7, 2 ** 32 - 1, 3)
     L = 4 if ctx.quick() else 5
@@ -97,10 +101,11 @@ def run(ctx, res):
     if len(seqs) > (1600 if ctx.quick() else 40000):
         seqs = rng.sample(seqs, 1600 if ctx.quick() else 40000)
     for seq in seqs:
-        tasks.append(("hist", rng.randrange(ncreds), (pool_counters, seq)))
+        tasks.append(("hist", rng.randrange(ncreds), (pool_counters, seq, rng.choice(FLAGSETS))))
     work.driver_ok = ctx.driver_ok
     corr.merge(res, corr.parallel(work, tasks))
-    res.rule = ("(stored, counter) over the boundary grid {0,1,2,2^31-1,2^31,2^32-2,2^32-1}^2 plus random pairs; presentation "
+    res.rule = ("(stored, counter) over the boundary grid {0,1,2,2^31-1,2^31,2^32-2,2^32-1}^2 x 9 flag combinations (UV, BE, BS, "
+                "reserved bits) plus random pairs; presentation "
                 "histories = sequences (quick: all up to length 4 sampled to 1600, thorough: length 5 sampled to 40000) over a pool of "
                 "pre-signed assertions with distinct and repeated counters, driven through the real API with the stored value updated "
                 "from the returned new_sign_count; distinct = (stored,counter) pair or (pool, sequence)")
